@@ -1,6 +1,6 @@
 (* Assumption audit of the order-generic theorems (Props/C0x_anyorder.v): every line must print
    "Closed under the global context". *)
-From OPF Require Import Props.C01_anyorder Props.C03_anyorder.
+From OPF Require Import Props.C01_anyorder Props.C03_anyorder Props.C02_anyorder.
 
 Print Assumptions C01_finite_order_embedding.
 Print Assumptions C01_sup_fit_rank_related.
@@ -18,3 +18,16 @@ Print Assumptions C03_predict_is_argmin_anyorder.
 Print Assumptions C03_predict_label_is_argmin_anyorder.
 Print Assumptions C03_sup_fit_predict_anyorder.
 Print Assumptions C03_anyorder_example.
+Print Assumptions C02_prim_spanning_tree_anyorder.
+Print Assumptions C02_prim_tree_connected_anyorder.
+Print Assumptions C02_prim_minimax_tree_anyorder.
+Print Assumptions C02_prim_cycle_optimal_anyorder.
+Print Assumptions C02_prototypes_exact_anyorder.
+Print Assumptions C02_every_class_has_prototype_anyorder.
+Print Assumptions C02_prototypes_nonempty_anyorder.
+Print Assumptions C02_prim_spanning_parent_map_anyorder.
+Print Assumptions C02_prim_tree_characterised_anyorder.
+Print Assumptions C02_prototypes_characterised_anyorder.
+Print Assumptions C02_find_prototypes_lengths_anyorder.
+Print Assumptions C02_two_classes_give_forest_anyorder.
+Print Assumptions C02_anyorder_example.
